@@ -21,7 +21,7 @@ func init() {
 			"under sequential or parallel executor, every organism checked after every epoch. evaluations = genomes checked. " +
 			"A genome is non-trivial if it has a hidden node and a disabled or recurrent gene; distinct by snapshot fingerprint.",
 		Assumptions: []string{"start genomes satisfy the C01 preconditions (generator-built; shipped files)",
-			"fitness finite, non-negative, <= 1e12", "genomes above 60 nodes / 250 genes are retired from operator histories"},
+			"fitness finite, non-negative (one shape in eight: values near the top of the float64 range whose sum overflows)", "genomes above 60 nodes / 250 genes are retired from operator histories"},
 		Cases: func(tier string) int {
 			if tier == "quick" {
 				return 960
